@@ -522,6 +522,38 @@ theorem zernike_orthonormal_noll (j k : Nat) (hj : 1 ≤ j) (hk : 1 ≤ k) (hj' 
 
 end Integrals
 
+/-! ## `make_zernike_basis`: element `j` is mode `starting_mode + j` -/
+
+/-- the `j`-th mode (or Field generator) of the basis is the mode of index `starting_mode + j` -/
+theorem basis_mode_index (ansi : Bool) (start num j : Nat) (hj : j < num) :
+    (basisModes ansi start num)[j]? =
+      some (if ansi then ansiToZernike (start + j) else nollToZernike (start + j)) := by
+  unfold basisModes
+  simp [hj]
+
+theorem basis_length (ansi : Bool) (start num : Nat) : (basisModes ansi start num).length = num := by
+  simp [basisModes]
+
+/-- the modes of a basis are pairwise different (Noll numbering starts at 1) -/
+theorem basis_modes_distinct (ansi : Bool) (start num : Nat) (hs : ansi = false → 1 ≤ start) :
+    (basisModes ansi start num).Nodup := by
+  unfold basisModes
+  refine (List.nodup_range).map_on ?_
+  intro a _ b _ h
+  cases ansi with
+  | true => simp only [if_true] at h; have := ansi_injective _ _ h; omega
+  | false =>
+    have h1 := hs rfl
+    simp only [Bool.false_eq_true, if_false] at h
+    have := noll_injective _ _ (by omega) (by omega) h
+    omega
+
+/-- closures that bind the loop variable late all evaluate the last index (seeded defect class):
+already for two modes the first generator is wrong -/
+theorem basis_late_binding_counterexample :
+    basisModesLateBinding false 1 2 = [(1, 1), (1, 1)] ∧ basisModes false 1 2 = [(0, 0), (1, 1)] := by
+  decide +kernel
+
 /-! ## Hypotheses are satisfiable -/
 
 example : valid 4 (-2) = true := by decide
